@@ -11,12 +11,17 @@
    entity's table entry (a despawn reactor fires at most once per watched entity) and empties the channel.
    RSeq (sequence numbers below the counter) is a closed invariant of every interpreter step, hence holds in every
    reachable state.
-   NOT proved: that a poll happens no later than the end of the
-   enclosing tree / frame (structural in Machine.exec: IPoll before and after every system command and in TFrame), and
-   the "exactly one RUN per reactor" link from a scheduled reaction to its run (C02 partial).  Those rest on the
-   correspondence (poll profile: inserts, removals, re-inserts and despawns between polls, direct and in frames). *)
+   Proved for whole executions (PrepSpec, TopLevel): every reaction a poll schedules is parked (Command::apply draws a
+   fresh ticket and parks the reaction's data) in the order in which the poll produced it, each before anything it
+   causes; tickets increase strictly in parking order in every reachable state; and over a whole run every parked
+   command is set up exactly once — by the run it causes or by the abort path when its target has vanished — none is
+   lost and none is set up twice.  So "scheduled by a poll" leads to exactly one setup (run or abort) per reactor.
+   NOT proved: that a poll happens no later than the end of the enclosing tree / frame (structural in Machine.exec:
+   IPoll before and after every system command and in TFrame).  That rests on the correspondence (poll profile:
+   inserts, removals, re-inserts and despawns between polls, direct and in frames). *)
 From Cobweb Require Import Machine.
-From CobwebProofs Require Import TablesSpec PollSpec.
+From Coq Require Import Sorting.Sorted Sorting.Permutation.
+From CobwebProofs Require Import TablesSpec PollSpec TicketInv PrepSpec TopLevel.
 
 Theorem removal_is_recorded_once_partial : forall c e w,
   removed (push_removed c e w) = removed w ++ [(c, (e, removed_seq w, generation w))] /\ removed_seq (push_removed c e w) = N.succ (removed_seq w).
@@ -63,6 +68,15 @@ Proof. exact despawn_entry_is_consumed. Qed.
 Theorem poll_empties_the_despawn_channel_partial : forall w, despawn_chan (fst (poll w)) = [].
 Proof. exact poll_empties_the_despawn_channel. Qed.
 
+Theorem reactions_of_one_poll_are_parked_in_order : forall (P : program) f w w', psorted w -> exec P f IPoll w = Ok w' ->
+  exists bs, g_prep w' = g_prep w ++ concat bs /\ Forall2 own_head (snd (poll w)) bs /\ psorted w'.
+Proof. exact poll_reactions_parked_in_order. Qed.
+Theorem tickets_increase_in_parking_order : forall (P : program) fuel w', run P fuel = Ok w' -> StronglySorted N.lt (ptickets (g_prep w')).
+Proof. exact parking_order_is_ticket_order. Qed.
+Theorem every_parked_reaction_is_set_up_exactly_once : forall (P : program) fuel w', run P fuel = Ok w' ->
+  Permutation (ptickets (g_prep w')) (ctickets (g_claim w')) /\ NoDup (ctickets (g_claim w')).
+Proof. exact every_parked_command_is_set_up_exactly_once. Qed.
+
 (* non-vacuity: component 0 of entity 1 is removed, re-inserted and removed again between two polls, entity 2 (watched)
    is despawned: the removal reactor runs twice for entity 1, the despawn reactor once for entity 2 *)
 Definition ex_prog : program :=
@@ -76,6 +90,12 @@ Example ex_runs : exists w', run ex_prog 400 = Ok w'
          (filter (fun e => match e with EvRun _ _ _ _ => true | _ => false end) (log w'))
      = [(101, [(0, 1)], None); (101, [(0, 1)], None); (102, [], Some 2)].
 Proof. eexists. split; [vm_compute; reflexivity|]. vm_compute. reflexivity. Qed.
+
+(* non-vacuity of the parking theorems: the initial state is sorted, and the example run parks under tickets 1, 2, ... *)
+Example ex_sorted : psorted (install_static ex_prog init_world).
+Proof. exact (psorted_init ex_prog). Qed.
+Example ex_parked : exists w', run ex_prog 400 = Ok w' /\ ptickets (g_prep w') = [1; 2; 3] /\ ctickets (g_claim w') = [1; 2; 3].
+Proof. eexists. split; [vm_compute; reflexivity|]. vm_compute. split; reflexivity. Qed.
 
 Print Assumptions removal_is_recorded_once_partial.
 Print Assumptions nothing_recorded_for_a_component_not_removed_partial.
@@ -91,3 +111,6 @@ Print Assumptions poll_schedules_every_despawn_reactor_partial.
 Print Assumptions despawn_reactions_go_to_exactly_the_registered_reactors_partial.
 Print Assumptions despawn_reactor_fires_at_most_once_per_entity_partial.
 Print Assumptions poll_empties_the_despawn_channel_partial.
+Print Assumptions reactions_of_one_poll_are_parked_in_order.
+Print Assumptions tickets_increase_in_parking_order.
+Print Assumptions every_parked_reaction_is_set_up_exactly_once.
